@@ -1,6 +1,208 @@
-"""Reference execution of a program WITHOUT nextline (used by C04/C05): placeholder,
-filled in by the C04/C05 harness."""
+"""Reference execution of a program WITHOUT nextline (used by C04/C05).
+
+run_reference(src, form, build_statement) runs the same program as the traced run -- plain
+`exec` of the compiled code in fresh globals, or a plain call of the callable -- under a
+RECORDING trace function installed with sys.settrace / threading.settrace.  The recorder
+always returns itself, so it sees the complete raw event stream CPython generates: every
+call / line / return / exception event of every frame of every thread.
+
+Nothing of nextline is imported here: the result is the independent oracle of C04 (what the
+program does when executed directly) and of C05 (which lines each thread/task executes).
+
+result = {
+  'streams': [ {'key': 'thread:0'|'task:1', 'kind': 'thread'|'task', 'main_thread': bool,
+                'thread': int, 'first_seq': int} ... ]            # in order of first event
+  'frames':  [ [module_name, code_name, file_name, gen_flag, first_line] ... ]   # index = frame id
+  'events':  [ [stream_index, kind, frame_id, parent_frame_id|-1, line, exc_info] ... ]
+               kind: 0 call, 1 line, 2 return, 3 exception;  exc_info: 0 | [type_name, is_StopIteration,
+               is_GeneratorExit, traceback_is_None]
+  'stdout':  [ [stream_index|-1, text] ... ]                      # every sys.stdout.write, in order
+  'ret': repr(return value), 'exc_type': str|None, 'exc_str': str, 'tb': [[file, line, name, module] ...],
+  'fmt_exc': str, 'script_module': str, 'script_file': str, 'truncated': bool
+}
+"""
+from __future__ import annotations
+
+import asyncio
+import io
+import sys
+import threading
+import traceback
+from functools import partial
+from pathlib import Path
+from types import CodeType
+
+REF_MODULE = '__verif_reference_script__'
+GEN_FLAGS = 0x20 | 0x80 | 0x200          # CO_GENERATOR | CO_COROUTINE | CO_ASYNC_GENERATOR
+MAX_EVENTS = 60000
+KIND = {'call': 0, 'line': 1, 'return': 2, 'exception': 3}
+
+
+class Recorder:
+    def __init__(self):
+        self.frames: dict = {}          # id(frame) -> frame index (frames are kept alive: no id reuse)
+        self.keep: list = []
+        self.frame_info: list = []
+        self.streams: dict = {}         # task/thread object id -> stream index
+        self.keep_keys: list = []
+        self.stream_info: list = []
+        self.threads: dict = {}
+        self.by_ident: dict = {}        # thread ident -> stream index of the thread itself
+        self.events: list = []
+        self.stdout: list = []
+        self.truncated = False
+        self.main_ident = threading.get_ident()
+        self.lock = threading.Lock()
+
+    # ---- identity of the current thread / asyncio task (what nextline calls current_task_or_thread)
+    def stream(self) -> int:
+        try:
+            task = asyncio.current_task()
+        except RuntimeError:
+            task = None
+        obj = task if task is not None else threading.current_thread()
+        k = id(obj)
+        s = self.streams.get(k)
+        if s is None:
+            with self.lock:
+                ident = threading.get_ident()
+                t = self.threads.setdefault(ident, len(self.threads))
+                s = len(self.stream_info)
+                self.streams[k] = s
+                self.keep_keys.append(obj)
+                kind = 'task' if task is not None else 'thread'
+                if task is None:
+                    self.by_ident[ident] = s
+                self.stream_info.append({'key': f'{kind}:{s}', 'kind': kind, 'main_thread': ident == self.main_ident,
+                                         'thread': t, 'first_seq': len(self.events)})
+        return s
+
+    def frame_id(self, frame) -> int:
+        k = id(frame)
+        i = self.frames.get(k)
+        if i is None:
+            with self.lock:
+                i = len(self.frame_info)
+                self.frames[k] = i
+                self.keep.append(frame)
+                co = frame.f_code
+                self.frame_info.append([frame.f_globals.get('__name__'), co.co_name, co.co_filename,
+                                        1 if co.co_flags & GEN_FLAGS else 0, co.co_firstlineno])
+        return i
+
+    def trace(self, frame, event, arg):
+        k = KIND.get(event)
+        if k is None:
+            return self.trace
+        if frame.f_code is _WRITE_CODE:
+            return None                 # the recorder's own sys.stdout.write: not part of the program
+        if len(self.events) >= MAX_EVENTS:
+            self.truncated = True
+            return self.trace
+        s = self.stream()
+        f = self.frame_id(frame)
+        back = frame.f_back
+        p = self.frame_id(back) if back is not None else -1
+        x = 0
+        if k == 3:
+            x = [getattr(arg[0], '__name__', str(arg[0])), arg[0] is StopIteration, arg[0] is GeneratorExit, arg[2] is None]
+        self.events.append([s, k, f, p, frame.f_lineno, x])
+        return self.trace
+
+
+class RecStdout(io.TextIOBase):
+    def __init__(self, rec: Recorder):
+        self.rec = rec
+
+    def writable(self):
+        return True
+
+    def write(self, s):
+        # only C functions are called here (no frame of this method's callees reaches the recorder)
+        try:
+            task = asyncio.current_task()
+        except RuntimeError:
+            task = None
+        if task is not None:
+            k = self.rec.streams.get(id(task), -1)
+        else:
+            k = self.rec.by_ident.get(threading.get_ident(), -1)
+        self.rec.stdout.append([k, s])
+        return len(s)
+
+    def flush(self):
+        pass
+
+
+_WRITE_CODE = RecStdout.write.__code__
+
+
+def _compose(statement, filename):
+    """what `executing it directly` means for each statement form"""
+    if isinstance(statement, str):
+        code = compile(statement, filename, 'exec')
+        return partial(exec, code, {'__name__': REF_MODULE}), REF_MODULE, filename
+    if isinstance(statement, Path):
+        code = compile(statement.read_text(), str(statement), 'exec')
+        return partial(exec, code, {'__name__': REF_MODULE}), REF_MODULE, str(statement)
+    if isinstance(statement, CodeType):
+        return partial(exec, statement, {'__name__': REF_MODULE}), REF_MODULE, statement.co_filename
+    return statement, statement.__module__, statement.__code__.co_filename
 
 
 def run_reference(src, form, build_statement):
-    return None
+    res = {'streams': [], 'frames': [], 'events': [], 'stdout': [], 'ret': None, 'exc_type': None, 'exc_str': '',
+           'tb': [], 'fmt_exc': '', 'script_module': None, 'script_file': None, 'truncated': False, 'error': None}
+    try:
+        statement, filename = build_statement(src, form)
+    except BaseException as e:
+        res['error'] = f'build: {e!r}'
+        return res
+    exc = None
+    try:
+        func, module, file = _compose(statement, filename)
+    except BaseException as e:          # SyntaxError of the source text
+        exc = e
+        exc.__traceback__ = None         # no frame of the user's code exists
+        func = None
+        module, file = REF_MODULE, filename
+    res['script_module'] = module
+    res['script_file'] = file
+    rec = Recorder()
+    if func is not None:
+        old_out = sys.stdout
+        sys.stdout = RecStdout(rec)
+        here = sys._getframe()
+        threading.settrace(rec.trace)
+        sys.settrace(rec.trace)
+        try:
+            ret = func()
+            sys.settrace(None)
+            res['ret'] = repr(ret)
+        except BaseException as e:
+            sys.settrace(None)
+            exc = e
+            tb = e.__traceback__
+            if tb is not None and tb.tb_frame is here:     # this harness frame is not the program's
+                e.__traceback__ = tb.tb_next
+        finally:
+            sys.settrace(None)
+            threading.settrace(None)  # type: ignore
+            sys.stdout = old_out
+    if exc is not None:
+        res['exc_type'] = type(exc).__name__
+        res['exc_str'] = str(exc)
+        tb = exc.__traceback__
+        while tb is not None:
+            fr = tb.tb_frame
+            res['tb'].append([fr.f_code.co_filename, tb.tb_lineno, fr.f_code.co_name, fr.f_globals.get('__name__')])
+            tb = tb.tb_next
+        res['fmt_exc'] = ''.join(traceback.format_exception(type(exc), exc, exc.__traceback__))
+    res['streams'] = rec.stream_info
+    res['frames'] = rec.frame_info
+    res['events'] = rec.events
+    res['stdout'] = rec.stdout
+    res['truncated'] = rec.truncated
+    rec.keep.clear()
+    rec.keep_keys.clear()
+    return res
